@@ -12,6 +12,7 @@ def run(rep, tier, seed):
     if tier == "thorough":
         gen_and_replay(rep, wd, exe, "Gen_C07.tla", "C07_d3", {"Depth": 3}, {"Kinds": "CoreKinds"}, timeout=6000)
     repo_suite_traces(rep, wd)
+    random_program_traces(rep, wd, exe, seed, 1500 if tier == "quick" else 12000, 4 if tier == "quick" else 5)
     rep.exhaustive = True
 
 def replay(path):
